@@ -133,19 +133,26 @@ Proof.
 Qed.
 
 (* ---------- 4. resuming an interrupted run ---------- *)
+Lemma has_raise_app : forall a b, has_raise (a ++ b) = has_raise a || has_raise b.
+Proof. intros a b. unfold has_raise. apply existsb_app. Qed.
+
+(* a run cut short by FUEL (not by an exception: has_raise l1 = false) can be resumed *)
 Theorem run_loop_resume : forall cfg n1 endt st st1 l1 n2 st2 l2 ok,
-  run_loop cfg n1 endt st = (st1, l1, false) -> run_loop cfg n2 endt st1 = (st2, l2, ok) ->
+  run_loop cfg n1 endt st = (st1, l1, false) -> has_raise l1 = false -> run_loop cfg n2 endt st1 = (st2, l2, ok) ->
   run_loop cfg (n1 + n2) endt st = (st2, l1 ++ l2, ok).
 Proof.
-  intros cfg n1. induction n1 as [|n IH]; intros endt st st1 l1 n2 st2 l2 ok H1 H2.
+  intros cfg n1. induction n1 as [|n IH]; intros endt st st1 l1 n2 st2 l2 ok H1 Hnr H2.
   - cbn [run_loop] in H1. inversion H1; subst. cbn [Nat.add app]. exact H2.
   - cbn [Nat.add run_loop]. cbn [run_loop] in H1.
     destruct (pop_event (s_events st)) as [[e rest]|] eqn:Hp; [|inversion H1].
     destruct (e_time e <=? endt); [|inversion H1].
     destruct (exec_event cfg (set_events st rest) e) as [sa la] eqn:He.
-    destruct (run_loop cfg n endt sa) as [[sb lb] okb] eqn:Hr.
-    inversion H1; subst.
-    rewrite (IH _ _ _ _ _ _ _ _ Hr H2). rewrite app_assoc. reflexivity.
+    destruct (has_raise la) eqn:Hra.
+    + inversion H1; subst. rewrite Hra in Hnr. discriminate.
+    + destruct (run_loop cfg n endt sa) as [[sb lb] okb] eqn:Hr.
+      inversion H1; subst.
+      rewrite has_raise_app, Hra in Hnr. cbn [orb] in Hnr.
+      rewrite (IH _ _ _ _ _ _ _ _ Hr Hnr H2). rewrite app_assoc. reflexivity.
 Qed.
 
 Theorem interrupted_state_ok : forall cfg n endt st st1 l1, inv st -> s_time st <= endt -> run_loop cfg n endt st = (st1, l1, false) ->
@@ -155,4 +162,58 @@ Proof.
   - eapply inv_run_loop; eassumption.
   - eapply run_loop_time_mono; eassumption.
   - intros Habm Hs. eapply step_inv_run_loop; eassumption.
+Qed.
+
+(* ---------- 5. the raise itself ---------- *)
+(* the statements after a raising statement never run *)
+Theorem raise_stops_body : forall cfg st pre rest, do_acts cfg st (pre ++ ARaise :: rest) =
+  (let '(st1, l1) := do_acts cfg st pre in if has_raise l1 then (st1, l1) else (st1, l1 ++ [LRaise])).
+Proof.
+  intros cfg st pre rest. revert st. induction pre as [|a pre IH]; intros st.
+  - reflexivity.
+  - cbn [app do_acts].
+    destruct (do_act cfg st a) as [s1 la] eqn:Ea.
+    destruct (has_raise la) eqn:Hra.
+    + rewrite Hra. reflexivity.
+    + rewrite IH. destruct (do_acts cfg s1 pre) as [s2 l2] eqn:E2.
+      rewrite has_raise_app, Hra. cbn [orb].
+      destruct (has_raise l2); [reflexivity|]. rewrite app_assoc. reflexivity.
+Qed.
+
+Lemma raise_not_ok : forall cfg fuel endt st st1 l1 ok,
+  run_loop cfg fuel endt st = (st1, l1, ok) -> has_raise l1 = true -> ok = false.
+Proof.
+  intros cfg fuel. induction fuel as [|n IH]; intros endt st st1 l1 ok H Hr.
+  - cbn [run_loop] in H. inversion H; subst. reflexivity.
+  - cbn [run_loop] in H.
+    destruct (pop_event (s_events st)) as [[e rest]|] eqn:Hp.
+    + destruct (e_time e <=? endt).
+      * destruct (exec_event cfg (set_events st rest) e) as [sa la] eqn:He.
+        destruct (has_raise la) eqn:Hra.
+        -- inversion H; subst. reflexivity.
+        -- destruct (run_loop cfg n endt sa) as [[sb lb] okb] eqn:Hl.
+           inversion H; subst.
+           rewrite has_raise_app, Hra in Hr. cbn [orb] in Hr.
+           eapply IH; eassumption.
+      * inversion H; subst. cbn in Hr. discriminate.
+    + inversion H; subst. cbn in Hr. discriminate.
+Qed.
+
+(* an exception escapes from run_until (ok = false) and leaves a state from which the simulator can go on *)
+Theorem raise_interrupts_run : forall cfg fuel endt st st1 l1 ok, inv st -> s_time st <= endt ->
+  run_loop cfg fuel endt st = (st1, l1, ok) -> has_raise l1 = true ->
+  ok = false /\ inv st1 /\ s_time st <= s_time st1 <= endt /\ (c_abm cfg = true -> step_inv st -> step_inv st1).
+Proof.
+  intros cfg fuel endt st st1 l1 ok Hi Hle H Hr.
+  pose proof (raise_not_ok _ _ _ _ _ _ _ H Hr) as Hok. subst ok.
+  split; [reflexivity|]. eapply interrupted_state_ok; eassumption.
+Qed.
+
+(* a run that reports ok = true saw no exception *)
+Theorem no_raise_completes_or_fuel : forall cfg fuel endt st st1 l1,
+  run_loop cfg fuel endt st = (st1, l1, true) -> has_raise l1 = false.
+Proof.
+  intros cfg fuel endt st st1 l1 H.
+  destruct (has_raise l1) eqn:Hr; [|reflexivity].
+  pose proof (raise_not_ok _ _ _ _ _ _ _ H Hr). discriminate.
 Qed.
